@@ -268,6 +268,16 @@ def run(ctx):
         "TABLE", floor=4,
     )
     _default_agreement(ctx, r8, repo)
+    r9 = ctx.rule(
+        "C19.R9",
+        "OPTION-TYPE: the package's own click parameter type behind `xml2json -v/--mount` (VolumeMountPath.convert, interpreted with "
+        "click.Path as a foreign base class and the os.path normalisers as symbolic functions) turns 'HOST:MOUNT' into (click's own "
+        "conversion of HOST, MOUNT exactly as typed), with resolve_path on and off: the mount point is the prefix readxml's resolver "
+        "compares with the path STRINGS written in the XML files, so it is never resolved against the working directory or "
+        "normalised; a value without exactly one colon is refused through self.fail",
+        "FWD", floor=3,
+    )
+    _mount_option_type(ctx, r9, repo)
     from . import c19cli
     c19cli.check_infer(ctx, r4, repo)
     c19cli.check_inspect(ctx, r4, repo)
@@ -733,3 +743,65 @@ def _default_agreement(ctx, rid, repo):
                     ctx.holds(rid, site, f"both default to {cli_v!r}")
                 else:
                     ctx.violated(rid, f, f"default of {'/'.join(strs)}", f"`pyhf {cname}` without {strs[-1]} runs {q} with {param}={cli_v!r}; the library call without that argument uses {lib_v!r}: the command line does not return what the library returns for the same inputs", expected=repr(lib_v), found=f"{A.short(dnode, 40)} = {cli_v!r}", node=dnode)
+
+
+def _mount_option_type(ctx, rid, repo):
+    from ..alg import Obj, PyFunc, RaisedInFragment, Undecided, _PyRaise
+    from ..objmodel import World
+    U = "src/pyhf/utils.py"
+    cls = repo.module(U).classes.get("VolumeMountPath")
+    if cls is None or "convert" not in cls.methods:
+        ctx.unrecognised(rid, (U, "<module>"), "VolumeMountPath", "the option type of -v/--mount is not found")
+        return
+    for m_ in cls.methods.values():
+        ctx.touch(m_)
+    errs = (Undecided, KeyError, TypeError, ValueError, IndexError, AttributeError)
+    sym = lambda tag: (lambda a, k: f"{tag}<{a[0]}>")
+    failed = []
+
+    def fail(inst, a, k):
+        failed.append(a[0] if a else None)
+        raise _PyRaise("BadParameter")
+
+    def base_init(inst, a, k):
+        inst.attrs.update({"resolve_path": k.get("resolve_path", False), "exists": k.get("exists", False), "name": "path", "type": None})
+        return None
+
+    base = {"__init__": base_init, "convert": lambda inst, a, k: f"CLICK<{a[0]}>", "coerce_path_result": lambda inst, a, k: a[0], "fail": fail}
+    for lab, resolve in (("resolve_path=True (as cli/rootio.py declares it)", True), ("resolve_path=False", False)):
+        try:
+            ext = {"__strict__": True, "gettext": lambda a, k: a[0], "_": lambda a, k: a[0]}
+            for nm_ in ("realpath", "abspath", "normpath", "expanduser", "expandvars", "normcase", "resolve", "absolute", "fspath"):
+                ext[nm_] = sym(nm_.upper())
+            w = World(ext, module_env={"click": Obj("click"), "os": Obj("os"), "Path": Obj("Path")})
+            w.add_foreign_base("Path", base)
+            w.add_class(cls)
+            inst = w.new(cls, [], {"exists": True, "resolve_path": resolve})
+            out = w.call_method(inst, "convert", ["host/dir:out/sub", Obj("PARAM"), Obj("CTX")], {})
+            got = tuple(out) if isinstance(out, (tuple, list)) else out
+            if got == ("CLICK<host/dir>", "out/sub"):
+                ctx.holds(rid, f"{U}::VolumeMountPath.convert ['host/dir:out/sub', {lab}]", "(click.Path.convert('host/dir'), 'out/sub')")
+            else:
+                ctx.violated(rid, cls.methods["convert"], f"-v HOST:MOUNT [{lab}]", "the mount half of a `-v host:mount` option does not reach readxml.parse as typed (the host half converted by click): a relative mount point that is resolved or normalised no longer equals the path prefix written in the XML files, the mount is silently ignored and the files are read from wherever the un-remapped path points -- possibly a later export into the same directory", expected="('CLICK<host/dir>', 'out/sub')", found=str(got))
+        except RaisedInFragment as e:
+            ctx.violated(rid, cls.methods["convert"], f"-v HOST:MOUNT [{lab}]", f"a well-formed host:mount value is refused ({e.exc_name})")
+        except errs as e:
+            ctx.unrecognised(rid, cls.methods["convert"], f"-v HOST:MOUNT [{lab}]", f"not interpretable: {type(e).__name__}: {e}")
+    try:
+        del failed[:]
+        ext = {"__strict__": True, "gettext": lambda a, k: a[0], "_": lambda a, k: a[0]}
+        w = World(ext, module_env={"click": Obj("click"), "os": Obj("os")})
+        w.add_foreign_base("Path", base)
+        w.add_class(cls)
+        inst = w.new(cls, [], {"exists": True, "resolve_path": True})
+        refused = False
+        try:
+            w.call_method(inst, "convert", ["no-colon-here", Obj("PARAM"), Obj("CTX")], {})
+        except RaisedInFragment:
+            refused = True
+        if refused and failed:
+            ctx.holds(rid, f"{U}::VolumeMountPath.convert ['no-colon-here']", "refused through self.fail")
+        else:
+            ctx.violated(rid, cls.methods["convert"], "-v value without a colon", "a -v value that is not host:mount is not refused through click's own failure path", expected="self.fail(...)", found="accepted" if not refused else "another exception")
+    except errs as e:
+        ctx.unrecognised(rid, cls.methods["convert"], "-v value without a colon", f"not interpretable: {type(e).__name__}: {e}")
